@@ -1,7 +1,110 @@
 /-
-  C11 — property theorems (see DESIGN.md §5 C11).
+  C11 — clearsigned input to the paragraph reader: with a keyring an armored input is
+  accepted only if it decodes and the signature verifies; what is parsed is exactly the
+  verified block; no signer is ever reported for unsigned input or with a nil keyring.
+  `dec` / `ver` are the answers of the external OpenPGP library (see Model/Clearsign.lean).
+  Property theorems only; lemmas live in GoDebian/Lemmas/Clearsign.lean.
 -/
 import GoDebian.Model.Clearsign
+import GoDebian.Lemmas.Clearsign
 
 namespace GoDebian.Props.C11
+open GoDebian GoDebian.Clearsign
+
+/-- With a keyring, a clearsigned input is accepted only if it decodes and the signature
+    verifies; what is parsed is exactly the verified block and the signer is the verified
+    one. -/
+theorem C11_sound (inp : Bytes) (dec ver : Option Bytes) (r : Reader)
+    (ha : startsWithArmor inp = true) (h : newReader inp true dec ver = .ok r) :
+    ∃ blk id, dec = some blk ∧ ver = some id ∧ r.source = blk ∧ r.signer = some id :=
+  Lemmas.Clearsign.newReader_sound ha h
+
+/-- Satisfiable: an armored input whose block differs from the text around it (here the
+    input carries an extra field before the armor's hash header and after the signature). -/
+example :
+    let B := Bytes.ofString
+    let inp := B ("-----BEGIN PGP SIGNED MESSAGE-----\nHash: SHA256\n\nSource: hello\n" ++
+      "-----BEGIN PGP SIGNATURE-----\n\nabcd\n-----END PGP SIGNATURE-----\nEvil: yes\n")
+    startsWithArmor inp = true ∧
+    newReader inp true (some (B "Source: hello")) (some (B "0123456789ABCDEF"))
+      = .ok ⟨B "Source: hello", some (B "0123456789ABCDEF")⟩ := by
+  decide +kernel
+
+/-- If decoding fails or the signature does not verify, the reader is not created. -/
+theorem C11_reject (inp : Bytes) (dec ver : Option Bytes)
+    (ha : startsWithArmor inp = true) (h : dec = none ∨ ver = none) :
+    newReader inp true dec ver = .error .err :=
+  Lemmas.Clearsign.newReader_reject ha h
+
+/-- Both disjuncts occur (a bare armor line that does not decode; a block that decodes
+    but whose signature is not by a key in the keyring). -/
+example :
+    let B := Bytes.ofString
+    startsWithArmor (B "-----BEGIN PGP SIGNED MESSAGE-----\n") = true ∧
+    newReader (B "-----BEGIN PGP SIGNED MESSAGE-----\n") true none none = .error .err ∧
+    newReader (B "-----BEGIN PGP SIGNED MESSAGE-----\n") true none (some [1]) = .error .err ∧
+    newReader (B "-----BEGIN PGP SIGNED MESSAGE-----\n") true (some (B "A: b\n")) none
+      = .error .err := by
+  decide +kernel
+
+/-- The paragraphs returned are exactly those of the signed text; bytes outside the block
+    never reach the caller. -/
+theorem C11_paragraphs (inp : Bytes) (dec ver : Option Bytes) (ps : List Deb822.Paragraph)
+    (s : Option Bytes) (ha : startsWithArmor inp = true)
+    (h : readAll inp true dec ver = .ok (ps, s)) :
+    ∃ blk id, dec = some blk ∧ ver = some id ∧ s = some id ∧ Deb822.all blk = .ok ps :=
+  Lemmas.Clearsign.readAll_paragraphs ha h
+
+/-- Satisfiable: the input has a paragraph after the signature (`Evil: yes`) and the
+    result has exactly the two paragraphs of the signed block. -/
+example :
+    let B := Bytes.ofString
+    let inp := B ("-----BEGIN PGP SIGNED MESSAGE-----\nHash: SHA256\n\nSource: hello\n\nPackage: x\n" ++
+      "-----BEGIN PGP SIGNATURE-----\n\nabcd\n-----END PGP SIGNATURE-----\n\nEvil: yes\n")
+    startsWithArmor inp = true ∧
+    readAll inp true (some (B "Source: hello\n\nPackage: x")) (some (B "KEYID"))
+      = .ok ([⟨[B "Source"], [(B "Source", B "hello")]⟩, ⟨[B "Package"], [(B "Package", B "x")]⟩],
+             some (B "KEYID")) := by
+  decide +kernel
+
+/-- A signer is never reported for unsigned input (whatever the keyring and whatever the
+    external library would have answered) … -/
+theorem C11_unsigned_no_signer (inp : Bytes) (k : Bool) (dec ver : Option Bytes)
+    (ha : startsWithArmor inp = false) : newReader inp k dec ver = .ok ⟨inp, none⟩ :=
+  Lemmas.Clearsign.newReader_unsigned inp k dec ver ha
+
+/-- Satisfiable; in particular an armor header that is not at the very start of the input
+    (here after a newline) is unsigned input. -/
+example :
+    startsWithArmor (Bytes.ofString "Source: hello\n") = false ∧
+    startsWithArmor (Bytes.ofString "\n-----BEGIN PGP SIGNED MESSAGE-----\n") = false ∧
+    startsWithArmor (Bytes.ofString "-----BEGIN PGP") = false ∧
+    startsWithArmor [] = false := by
+  decide +kernel
+
+/-- … nor with a nil keyring. -/
+theorem C11_nil_keyring_no_signer (inp : Bytes) (dec ver : Option Bytes) (r : Reader)
+    (h : newReader inp false dec ver = .ok r) : r.signer = none :=
+  Lemmas.Clearsign.newReader_nil_keyring h
+
+/-- Satisfiable on armored input, even when the library would have verified a signer. -/
+example :
+    newReader (Bytes.ofString "-----BEGIN PGP SIGNED MESSAGE-----\n") false
+      (some (Bytes.ofString "A: b\n")) (some [1]) = .ok ⟨Bytes.ofString "A: b\n", none⟩ := by
+  decide +kernel
+
+/-- The result depends on the input only through the block (for armored input): two
+    inputs with the same decode/verify answers read the same. -/
+theorem C11_outside_text_irrelevant (i1 i2 : Bytes) (dec ver : Option Bytes)
+    (h1 : startsWithArmor i1 = true) (h2 : startsWithArmor i2 = true) :
+    readAll i1 true dec ver = readAll i2 true dec ver :=
+  Lemmas.Clearsign.readAll_outside_irrelevant i1 i2 dec ver h1 h2
+
+example :
+    let B := Bytes.ofString
+    B "-----BEGIN PGP SIGNED MESSAGE-----\nA: b\n" ≠ B "-----BEGIN PGP SIGNED MESSAGE-----\nA: b\n\nEvil: yes\n" ∧
+    startsWithArmor (B "-----BEGIN PGP SIGNED MESSAGE-----\nA: b\n") = true ∧
+    startsWithArmor (B "-----BEGIN PGP SIGNED MESSAGE-----\nA: b\n\nEvil: yes\n") = true := by
+  decide +kernel
+
 end GoDebian.Props.C11
